@@ -64,7 +64,7 @@ func c07roundTrip(src string, sub string) map[string]any {
 	if sub != "" {
 		// the statement is about programs whose evaluation succeeds: a value taken out of a program
 		// with an error elsewhere may refer to the erroneous field (recorded C01 class)
-		if v.Validate() != nil || strings.Contains(c07observe(ctx, v, "raw"), "_|_(") {
+		if c07hasError(c07observe(ctx, v, "raw")) {
 			out["skip"] = "evaluation error"
 			return out
 		}
@@ -74,11 +74,7 @@ func c07roundTrip(src string, sub string) map[string]any {
 		out["skip"] = "no value"
 		return out
 	}
-	if err := v.Validate(); err != nil {
-		out["skip"] = "evaluation error"
-		return out
-	}
-	if strings.Contains(c07observe(ctx, v, "raw"), "_|_(") {
+	if c07hasError(c07observe(ctx, v, "raw")) {
 		// an error somewhere below (in a definition, an optional or required field) that Validate does not report
 		out["skip"] = "evaluation error"
 		return out
@@ -111,7 +107,7 @@ func c07roundTrip(src string, sub string) map[string]any {
 			r["fail"] = "printed text does not compile: " + err.Error()
 			continue
 		}
-		if err := w.Validate(); err != nil {
+		if err := w.Validate(); err != nil && c07hasError(c07observe(ctx2, w, "raw")) {
 			r["fail"] = "printed text evaluates to an error: " + err.Error()
 			continue
 		}
@@ -119,11 +115,70 @@ func c07roundTrip(src string, sub string) map[string]any {
 		if a != bb {
 			r["fail"] = "re-evaluated value differs"
 			r["want"], r["got"] = trunc9(a, 2500), trunc9(bb, 2500)
+			continue
+		}
+		// instantiation probe: expressions over free variables look alike while incomplete; give the
+		// free top-level scalars concrete values on both sides and compare what the expressions compute
+		// (only for the profiles that print expressions with their references: value-mode output, i.e.
+		// Final/Concrete, deliberately replaces references by values and so forgets the links between fields)
+		if p.mode == "raw" && sub == "" {
+			ia, na := c07instantiate(ctx, v)
+			ib, nb := c07instantiate(ctx2, w)
+			if na > 0 && na == nb {
+				oa, ob := c07observe(ctx, ia, "final"), c07observe(ctx2, ib, "final")
+				r["instantiated"] = na
+				if oa != ob {
+					r["fail"] = "re-evaluated value computes something else once its free variables are given values"
+					r["want"], r["got"] = trunc9(oa, 2500), trunc9(ob, 2500)
+				}
+			}
 		}
 	}
 	out["profiles"] = res
 	out["concrete"] = concrete
 	return out
+}
+
+// c07hasError: an error other than "incomplete" somewhere in the observation (a field that is still an
+// expression over non-concrete values is incomplete, which is a successful, non-concrete result).
+func c07hasError(o string) bool {
+	return strings.Contains(o, "_|_(eval)") || strings.Contains(o, "_|_(cycle)") || strings.Contains(o, "_|_(structcycle)") || strings.Contains(o, "_|_(fields:") || strings.Contains(o, "_|_(nil)")
+}
+
+// c07instantiate fills every non-concrete top-level int/number/string field with a fixed concrete value.
+func c07instantiate(ctx *cue.Context, v cue.Value) (cue.Value, int) {
+	it, err := v.Fields()
+	if err != nil {
+		return v, 0
+	}
+	type fill struct {
+		sel cue.Selector
+		val any
+	}
+	var fills []fill
+	ints := []int{10, 5, 3, 7, 2, 11}
+	n := 0
+	for it.Next() {
+		fv := it.Value()
+		if fv.IsConcrete() {
+			continue
+		}
+		if _, ok := fv.Default(); ok && false {
+			continue
+		}
+		switch k := fv.IncompleteKind(); {
+		case k&^(cue.IntKind|cue.FloatKind) == 0 && k != 0:
+			if op, _ := fv.Expr(); op == cue.NoOp || op == cue.AndOp || op == cue.OrOp {
+				fills = append(fills, fill{it.Selector(), ints[n%len(ints)]})
+				n++
+			}
+		}
+	}
+	out := v
+	for _, f := range fills {
+		out = out.FillPath(cue.MakePath(f.sel), f.val)
+	}
+	return out, len(fills)
 }
 
 func init() {
